@@ -294,6 +294,25 @@ fn pow_ops(fc: &FC, rep: &mut Report, rng: &mut Rng, a: &[u64]) {
             fc.chk(rep, "pow", &r, &fc.zp.pow(&va, &ev), &[a, e]);
         }
     }
+    // pow_with_table: Some(a^e) when the table [a, a^2, a^4, ...] reaches the highest set bit of e, else None
+    {
+        let e = vec![rng.next_u64() >> (rng.next_u32() % 64), if rng.next_u32() % 2 == 0 { 0 } else { rng.next_u64() >> 40 }];
+        let ev = from_limbs(&e);
+        let need = ev.bits() as usize;
+        for tl in [need, need + 2, need.saturating_sub(1)] {
+            rep.class_if(tl < need, "pow_with_table: table too short (None)");
+            if let Some(r) = rep.total(&fc.sig("pow_with_table", "total"), || json!({"config": fc.name, "a": hex_limbs(a), "e": hex_limbs(&e), "table_len": tl}), || fc.pf.pow_with_table(a, tl, &e)) {
+                rep.eval(mix(fc.cd, digest(&("powt", a, &e, tl))), true);
+                match r {
+                    Some(g) if tl >= need => {
+                        fc.chk(rep, "pow_with_table", &g, &fc.zp.pow(&va, &ev), &[a, &e]);
+                    },
+                    None if tl < need => {},
+                    g => rep.violation(fc.sig("pow_with_table", "some-none-mismatch"), json!({"config": fc.name, "e": hex_limbs(&e), "table_len": tl, "got_some": g.is_some()})),
+                }
+            }
+        }
+    }
     // frobenius on a prime field is the identity
     let k = rng.next_u32() as usize % 5;
     if let Some(r) = rep.total(&fc.sig("frobenius_map", "total"), || json!({"config": fc.name}), || fc.pf.frobenius(a, k)) {
